@@ -316,9 +316,17 @@ fn build_guest(api: &[ApiFn], g: &GuestSpec) -> String {
 }
 
 fn trampoline(wasm: &[u8]) -> Result<Vec<u8>> {
-    let module = walrus::Module::from_buffer(wasm)?;
-    let mut out = shopify_function_trampoline::TrampolineCodegen::new(module)?.apply()?;
-    Ok(out.emit_wasm())
+    // a panic inside the tool is an outcome of its own (never a reason for this harness to die)
+    let w = wasm.to_vec();
+    let r = std::panic::catch_unwind(move || -> Result<Vec<u8>> {
+        let module = walrus::Module::from_buffer(&w)?;
+        let mut out = shopify_function_trampoline::TrampolineCodegen::new(module)?.apply()?;
+        Ok(out.emit_wasm())
+    });
+    match r {
+        Ok(x) => x,
+        Err(_) => Err(anyhow!("PANIC inside TrampolineCodegen")),
+    }
 }
 
 // ------------------------------------------------------------------------------ glue -> Lean
@@ -1087,7 +1095,9 @@ fn summary_line(wasm: &[u8]) -> Result<String> {
 }
 
 fn classify(err: &str) -> &'static str {
-    if err.contains("multiple non-imported memories") {
+    if err.contains("PANIC inside") {
+        "PANIC"
+    } else if err.contains("multiple non-imported memories") {
         "multi-memory"
     } else if err.contains("unexpected import") {
         "unexpected-import"
@@ -1247,8 +1257,9 @@ fn cmd_c07(seed: u64, n: u64, ops_path: &str, impl_path: &str) -> Result<()> {
             let (a, b) = (dir.join(format!("c07-{}-in.wasm", seed)), dir.join(format!("c07-{}-out.wasm", seed)));
             std::fs::write(&a, &wasm)?;
             std::fs::write(&b, b"stale contents of an earlier run")?;
-            let r1 = shopify_function_trampoline::trampoline_existing_module(&a, &b);
-            let r2 = shopify_function_trampoline::trampoline_existing_module(&a, &a);
+            let (a1, b1, a2) = (a.clone(), b.clone(), a.clone());
+            let r1 = std::panic::catch_unwind(move || shopify_function_trampoline::trampoline_existing_module(&a1, &b1)).unwrap_or_else(|_| Err(anyhow!("PANIC")));
+            let r2 = std::panic::catch_unwind(move || shopify_function_trampoline::trampoline_existing_module(&a2, &a2)).unwrap_or_else(|_| Err(anyhow!("PANIC")));
             match (&res, r1.is_ok(), r2.is_ok()) {
                 (Ok(out), true, true) => {
                     if &std::fs::read(&b)? != out {
@@ -1418,6 +1429,29 @@ fn cmd_abi(out: &str, candidates: &[String]) -> Result<()> {
             expected.push((a.name.clone(), Sig { params: vec!["f32".into()], results: vec!["f32".into()] }));
         }
     }
+    // 2b. the same function imported twice, once with the public and once with a perturbed signature, in both
+    //     orders: where the tool insists on a signature it must do so for every occurrence
+    let mut dup_accepted: Vec<String> = Vec::new();
+    for (name, sig) in &expected {
+        for perturb in 0..3 {
+            let mut bad = sig.clone();
+            match perturb {
+                0 => bad.params.push("i32".to_string()),
+                1 => bad.results = if bad.results.is_empty() { vec!["i32".to_string()] } else { vec![] },
+                _ => {
+                    bad.params.pop();
+                }
+            }
+            for order in 0..2 {
+                let pair = if order == 0 { vec![(API_MODULE.to_string(), name.clone(), sig.clone()), (API_MODULE.to_string(), name.clone(), bad.clone())] } else { vec![(API_MODULE.to_string(), name.clone(), bad.clone()), (API_MODULE.to_string(), name.clone(), sig.clone())] };
+                let n2 = name.clone();
+                let accepted = std::panic::catch_unwind(std::panic::AssertUnwindSafe(|| run(&pair).is_ok())).unwrap_or(true);
+                if accepted && !dup_accepted.contains(&n2) {
+                    dup_accepted.push(n2);
+                }
+            }
+        }
+    }
     // 3. low-level names inside the API namespace the tool tolerates (its own output must be accepted again)
     let mut cands: Vec<String> = emits.iter().map(|(n, _)| n.clone()).collect();
     for c in candidates {
@@ -1461,6 +1495,7 @@ fn cmd_abi(out: &str, candidates: &[String]) -> Result<()> {
     s.push_str(&tbl("trampolineEmits", "every provider import in the output for a guest importing the whole API", &emits));
     writeln!(s, "/-- low-level names tolerated inside the API namespace -/\ndef trampolineAllowList : List (List Nat) := [{}]", allow.iter().map(|a| name_lit(a)).collect::<Vec<_>>().join(", ")).unwrap();
     writeln!(s, "/-- imports that are only renamed: (public name, name in the output) -/\ndef toolRenames : List (List Nat × List Nat) := [\n  {}\n]", renames.iter().map(|(a, b)| format!("({}, {})", name_lit(a), name_lit(b))).collect::<Vec<_>>().join(",\n  ")).unwrap();
+    writeln!(s, "/-- functions the tool insists on a signature for, yet accepts when imported twice with the public and a perturbed signature (either order) -/\ndef toolAcceptsDupBadSig : List (List Nat) := [{}]", dup_accepted.iter().map(|a| name_lit(a)).collect::<Vec<_>>().join(", ")).unwrap();
     writeln!(s, "/-- function imports left in the API namespace after trampolining the whole API -/\ndef toolLeftInApi : List (List Nat) := [{}]", left.iter().map(|a| name_lit(a)).collect::<Vec<_>>().join(", ")).unwrap();
     s.push_str("end SfVerif.Gen\n");
     let old = std::fs::read_to_string(out).unwrap_or_default();
